@@ -143,8 +143,40 @@ func run(c *vf.Ctx) {
 			}
 		}
 	}
+	// stratum "victim + blocker": a second, untracked path that makes go-git fail half-way
+	victims := []stratum{{"staged-mod", "same"}, {"staged-add", "none"}, {"untracked", "added"}, {"unstaged-mod", "same"}}
+	for round := 0; round < rounds; round++ {
+		for oi, op := range mainOps {
+			for vi, v := range victims {
+				r := c.Rand("midway", round, op, v.kind)
+				found := false
+				for bt := 0; bt < nb && !found; bt++ {
+					bi := (round*5 + oi + vi + bt) % nb
+					b := bases[bi]
+					n := len(b.IDs)
+					for _, x := range r.Perm(n * n) {
+						cur, tgt := x/n, x%n
+						if cur == tgt || (needsDescendant(op) && !b.IsAncestor(cur, tgt)) {
+							continue
+						}
+						e, ok := wtlab.PickEdit(r, v.kind, v.rel, b.Tree(cur), b.Tree(tgt), len(cases)*4, nil)
+						if !ok {
+							continue
+						}
+						blk, ok := wtlab.PickEdit(r, "untracked", []string{"t-file-above", "t-dir-at"}[r.Intn(2)], b.Tree(cur), b.Tree(tgt), len(cases)*4+1, []string{e.Path})
+						if !ok {
+							continue
+						}
+						cases = append(cases, caseT{Op: op, Base: bi, Cur: cur, Tgt: tgt, Edits: []wtlab.Edit{e, blk}, Stratum: op + "|midway|" + v.kind})
+						found = true
+						break
+					}
+				}
+			}
+		}
+	}
 	allKinds := append(append([]string{}, wtlab.TrackedKinds...), wtlab.NewKinds...)
-	nRandom := c.N(230, 5600)
+	nRandom := c.N(206, 5300)
 	for k := 0; k < nRandom; k++ {
 		r := c.Rand("random", k)
 		op := mainOps[k%len(mainOps)]
@@ -424,7 +456,10 @@ func runCase(c *vf.Ctx, g *gitx.Git, bases []*wtlab.Base, k caseT) {
 		case isRefusal(opErr):
 			key = fam + ":refused(" + ec + "):" + kind + ":" + what
 		default:
-			key = fam + ":failed-midway:" + what
+			// the call started to modify the repository and then hit an I/O-level conflict
+			// (e.g. an untracked directory where a file must be written): whatever had been
+			// discarded by then is collateral of that one cause
+			key = fam + ":failed-midway:local-changes-lost"
 		}
 		gitDid := "refused (exit " + fmt.Sprint(gres.Code) + ")"
 		if gres.OK() {
